@@ -472,6 +472,20 @@ def _eval_state_test(interp: Interp, test: ast.AST, state: str) -> Optional[bool
     return None
 
 
+def r8b_task_is_complete(ctx: Context, rule: str = "C06.R8") -> None:
+    """Task.is_complete() is true exactly for COMPLETED and EVICTED (evaluated for every TaskState member)."""
+    if rule != "C06.R8":
+        ctx.rule(rule, "Task.is_complete(), on which readiness and release are built, is true exactly for COMPLETED and EVICTED "
+                       "(abstractly evaluated for every TaskState member: a CANCELLED parent never counts as done)")
+    interp, _cls, _w = task_interp(ctx.repo)
+    for s in interp.members:
+        v = interp.ev(ast.parse("self.is_complete()").body[0].value, {"_state": s, "_pre_scheduling_state": "VIRTUAL"})
+        want = s in ("COMPLETED", "EVICTED")
+        ctx.check(v == ("bool", want), rule, f"Task.is_complete|{s}", f"{TASKS}:{interp.methods['is_complete'].lineno}",
+                  f"is_complete({s}) = {want}", f"is_complete({s}) evaluates to {v}: a task in state {s} "
+                  f"{'no longer counts' if want else 'counts'} as a finished predecessor")
+
+
 def r8_graph_finished(ctx: Context) -> None:
     ctx.rule("C06.R8", "TaskGraph.is_complete is all(sink.is_complete()); TASK_GRAPH_FINISHED row and counter "
                        "are guarded by it")
@@ -494,13 +508,7 @@ def r8_graph_finished(ctx: Context) -> None:
     ctx.check(ok, "C06.R8", "TaskGraph.is_complete|all sinks complete", loc(fn),
               "all(t.is_complete() for t in self.get_sink_tasks())",
               f"is_complete is `{norm(rets[0].value) if rets else '?'}`")
-    # Task.is_complete = state in (EVICTED, COMPLETED)
-    interp, _cls, _w = task_interp(ctx.repo)
-    for s in interp.members:
-        v = interp.ev(ast.parse("self.is_complete()").body[0].value, {"_state": s, "_pre_scheduling_state": "VIRTUAL"})
-        want = s in ("COMPLETED", "EVICTED")
-        ctx.check(v == ("bool", want), "C06.R8", f"Task.is_complete|{s}", f"{TASKS}:{interp.methods['is_complete'].lineno}",
-                  f"is_complete({s}) = {want}", f"is_complete({s}) evaluates to {v}")
+    r8b_task_is_complete(ctx)
     sim = Sim(ctx.repo)
     h = sim.handler("TASK_FINISHED")
     g = cfgmod.build(h)
@@ -638,3 +646,5 @@ def run(ctx: Context) -> None:
     ctx.isolate(r7_decision_application)
     ctx.isolate(r8_graph_finished)
     ctx.isolate(r9_cascade_exemptions)
+    from . import c17
+    ctx.isolate(c17.r1_worklist, _alias={"C17.R1": "C06.R10"})
